@@ -3,6 +3,8 @@
 package cl
 
 import (
+	"fmt"
+
 	"github.com/ohler55/slip"
 )
 
@@ -55,6 +57,9 @@ func (f *MakeSequence) Call(s *slip.Scope, args slip.List, depth int) (result sl
 		element = v
 	}
 	size := getFixnumArg(s, args[1], "size", depth)
+	if slip.ArrayMaxDimension < size {
+		slip.TypePanic(s, depth, "size", args[1], fmt.Sprintf("fixnum between 0 and %d", slip.ArrayMaxDimension))
+	}
 	switch rt := args[0].(type) {
 	case slip.Symbol:
 		switch rt {
